@@ -10,15 +10,16 @@ import (
 
 func init() {
 	register("C30", func(r *Report) {
-		r.Explanation = "Sibling comparison of the three action closures (bisquitt, bisquitt-pub, bisquitt-sub), each explored for the four combinations of (--predefined-topics-file given, --predefined-topic given) with symbolic map values: (F1) the file flag's path is what ReadPredefinedTopicsFile reads; (F2) the option flag's values are what ParsePredefinedTopicOptions parses; (F3) the options map is merged INTO the file map (receiver/argument roles) after the file was read; (F4) the merged map is what reaches the PredefinedTopics field of the gateway/client configuration and the tools' own GetTopicID lookups; (F5) the flag names are the same in the three tools; (R6) Merge overwrites entry by entry (t[c][id] = src[c][id]) and adopts whole client maps only when the client is absent. All three vectors must satisfy the specification (not merely agree). Not decided: YAML decoding."
+		r.Explanation = "Sibling comparison of the three action closures (bisquitt, bisquitt-pub, bisquitt-sub), each explored for the four combinations of (--predefined-topics-file given, --predefined-topic given) with symbolic map values: (F1) the file flag's path is what ReadPredefinedTopicsFile reads; (F2) the option flag's values are what ParsePredefinedTopicOptions parses; (F3) the options map is merged INTO the file map (receiver/argument roles) after the file was read; (F4) the merged map is what reaches the PredefinedTopics field of the gateway/client configuration and the tools' own GetTopicID lookups; (F5) the flag names are the same in the three tools; (R6) Merge overwrites entry by entry (t[c][id] = src[c][id]) and adopts whole client maps only when the client is absent; (R7) the option list: every option that parses is handed to Add exactly once, in order, with the triple parsed from it (none is skipped on any condition), Add assigns t[client][id] = name unconditionally, and an option without a client ID is filed under the all-clients key. All three vectors must satisfy the specification (not merely agree). Not decided: YAML decoding."
 		r.floor("F", 12)
 		r.floor("R6", 1)
 	}, checkC30)
 	register("C31", func(r *Report) {
-		r.Explanation = "Decides all flag/environment combinations (finite abstract domain, exhaustively propagated; environment aliases are part of the cli.Flag declarations, so Context.Bool/IsSet cover them): (R1) each tool's action closure is explored for every consistent valuation of (--dtls, --insecure value and presence, --auth resp. --user presence and emptiness); the gateway/client constructor is reachable with credentials in use only if dtls or insecure(value) holds; (R2) the configuration's UseDTLS / AuthEnabled / User fields carry exactly those flag values; (R3) in the client library the AUTH packet is built iff cfg.User is non-empty, and on every iteration of the connect loop each CONNECT send is immediately followed by the AUTH send exactly when that AUTH exists. Not decided: that DTLS actually encrypts."
+		r.Explanation = "Decides all flag/environment combinations (finite abstract domain, exhaustively propagated; environment aliases are part of the cli.Flag declarations, so Context.Bool/IsSet cover them): (R1) each tool's action closure is explored for every consistent valuation of (--dtls, --insecure value and presence, --auth resp. --user presence and emptiness); the gateway/client constructor is reachable with credentials in use only if dtls or insecure(value) holds; (R2) the configuration's UseDTLS / AuthEnabled / User fields carry exactly those flag values; (R3) in the client library the AUTH packet is built iff cfg.User is non-empty, and on every iteration of the connect loop each CONNECT send is immediately followed by the AUTH send exactly when that AUTH exists; (R4) no library code writes the User, Password or UseDTLS field of a client configuration (the user the guards saw is the user the library sees). Not decided: that DTLS actually encrypts."
 		r.floor("R1", 20)
 		r.floor("R2", 6)
 		r.floor("R3", 3)
+		r.floor("R4", 1)
 	}, checkC31)
 }
 
@@ -216,6 +217,8 @@ func checkC30(c *Ctx, r *Report) {
 		})
 		r.cond(names[fileFlag] && names[optFlag], "F", strings.TrimPrefix(tool, "cmd/")+":flag-names", c.pos(f.Pos()), "queries --"+fileFlag+" and --"+optFlag, "the tool does not query the flags --"+fileFlag+" / --"+optFlag)
 	}
+	// R7: the option list means "Add every option, in order"
+	c.checkOptionListSemantics(r, "R7")
 	// R6: Merge semantics
 	merge := c.topicsMethod("Merge")
 	if merge == nil {
@@ -361,6 +364,37 @@ func checkC31(c *Ctx, r *Report) {
 	}
 	// R3: client library
 	c.checkAuthAfterConnect(r)
+	// R4: the credentials the guards and the application configured are the ones the library uses: nothing in the
+	// library packages writes the credential / transport fields of a client configuration
+	nW := 0
+	for _, f := range c.allRepoFuncs() {
+		if strings.Contains(fnPkgPath(f), "/cmd/") {
+			continue
+		}
+		allInstrs(f, func(i ssa.Instruction) {
+			st, ok := i.(*ssa.Store)
+			if !ok {
+				return
+			}
+			fa, ok := st.Addr.(*ssa.FieldAddr)
+			if !ok || !typeIs(derefType(fa.X.Type()), pkClient, "ClientConfig") {
+				return
+			}
+			fn := fieldName(fa.X.Type(), fa.Field)
+			if fn != "User" && fn != "Password" && fn != "UseDTLS" {
+				return
+			}
+			if isFreshObject(fa.X) {
+				return
+			}
+			nW++
+			r.fn(f)
+			r.bad("R4", fnKey(f)+":writes-ClientConfig."+fn, c.instrPos(i), "the client library overwrites the configured "+fn+": whether AUTH is sent (and over what transport) is then no longer what the application - and the CLI tools' plaintext guard, which looks at the flags - configured; a client configured without a user may send AUTH")
+		})
+	}
+	if nW == 0 {
+		r.ok("R4", "client-config-credentials-read-only", "-", "no store to ClientConfig.User / Password / UseDTLS outside the command-line tools' construction of the configuration")
+	}
 }
 
 func (c *Ctx) checkAuthAfterConnect(r *Report) {
@@ -459,4 +493,121 @@ func (c *Ctx) checkAuthAfterConnect(r *Report) {
 			r.bad("R3", key, c.pos(connect.Pos()), detail)
 		}
 	}
+}
+
+// checkOptionListSemantics: R7 of C30. "Later options override earlier ones,
+// entry by entry, and entries without a client ID apply to every client" is
+// what ParsePredefinedTopicOptions + Add compute when (a) every option that
+// parses is handed to Add exactly once before the next option is looked at -
+// no option is skipped on any condition - with the client ID, name and ID that
+// were parsed from that very option, (b) Add assigns t[client][id] = name
+// unconditionally (creating the client's map when absent), (c) a two-field
+// option gets the client ID "*".
+func (c *Ctx) checkOptionListSemantics(r *Report, rule string) {
+	parse := c.SSA[pkTopics].Func("ParsePredefinedTopicOptions")
+	add := c.topicsMethod("Add")
+	if parse == nil || add == nil {
+		r.undecided(rule, "ParsePredefinedTopicOptions", "-", "ParsePredefinedTopicOptions / Add not found")
+		return
+	}
+	r.fn(parse)
+	r.fn(add)
+	// (a) loop shape
+	var addCalls []ssa.CallInstruction
+	var loopHead *ssa.BasicBlock
+	allInstrs(parse, func(i ssa.Instruction) {
+		if ci, ok := i.(ssa.CallInstruction); ok && staticCallee(ci.Common()) == add {
+			addCalls = append(addCalls, ci)
+		}
+	})
+	key := "ParsePredefinedTopicOptions:every-option-added"
+	if len(addCalls) != 1 || !inCycle(addCalls[0].Block()) {
+		r.bad(rule, key, c.pos(parse.Pos()), fmt.Sprintf("expected exactly one Add call inside the loop over the options, found %d", len(addCalls)))
+	} else {
+		ac := addCalls[0]
+		// the loop head: the block of the cycle that dominates the Add call's block and has a back edge
+		for b := ac.Block(); b != nil; b = b.Idom() {
+			for _, p := range b.Preds {
+				if b.Dominates(p) && inCycle(b) {
+					loopHead = b
+				}
+			}
+			if loopHead != nil {
+				break
+			}
+		}
+		if loopHead == nil {
+			r.undecided(rule, key, c.instrPos(ac), "cannot identify the loop over the options")
+		} else {
+			// from the first instruction of every loop-body successor of the head, no path returns to the head avoiding Add
+			skip := false
+			for _, s := range loopHead.Succs {
+				if !inCycle(s) || !loopHead.Dominates(s) || len(s.Instrs) == 0 {
+					continue
+				}
+				if s.Instrs[0] == ssa.Instruction(ac) {
+					continue
+				}
+				if found, _ := pathExists(parse, s.Instrs[0], func(j ssa.Instruction) bool { return j.Block() == loopHead && j == loopHead.Instrs[0] },
+					func(j ssa.Instruction) bool { return j == ssa.Instruction(ac) }); found {
+					skip = true
+				}
+			}
+			// arguments: results of one call (the per-option parser) in the same iteration
+			argsOK := true
+			var src ssa.Value
+			for _, a := range ac.Common().Args[1:] {
+				v := stripConv(a)
+				ex, ok := v.(*ssa.Extract)
+				if !ok {
+					argsOK = false
+					continue
+				}
+				if src == nil {
+					src = ex.Tuple
+				} else if src != ex.Tuple {
+					argsOK = false
+				}
+			}
+			switch {
+			case skip:
+				r.bad(rule, key, c.instrPos(ac), "an iteration over the options can go on to the next option without calling Add: an option is silently dropped on some condition, so it no longer overrides the file's entry (or an earlier option) for its client and topic ID")
+			case !argsOK:
+				r.bad(rule, key, c.instrPos(ac), "the arguments of Add are not the (client ID, name, ID) parsed from the current option by one parser call")
+			default:
+				r.ok(rule, key, c.instrPos(ac), "every option that parses is added, with the triple parsed from it, before the next one is read")
+			}
+		}
+	}
+	// (b) Add: unconditional assignment
+	var inner *ssa.MapUpdate
+	allInstrs(add, func(i ssa.Instruction) {
+		if mu, ok := i.(*ssa.MapUpdate); ok {
+			if l, ok := mu.Map.(*ssa.Lookup); ok && l.X == ssa.Value(add.Params[0]) && l.Index == ssa.Value(add.Params[1]) {
+				inner = mu
+			}
+		}
+	})
+	kb := "Add:unconditional-assignment"
+	if inner == nil {
+		r.bad(rule, kb, c.pos(add.Pos()), "Add does not assign t[clientID][topicID]")
+	} else {
+		okv := len(add.Params) == 4 && inner.Key == ssa.Value(add.Params[3]) && inner.Value == ssa.Value(add.Params[2])
+		skip, _ := pathExists(add, nil, func(j ssa.Instruction) bool { _, ok := j.(*ssa.Return); return ok }, func(j ssa.Instruction) bool { return j == ssa.Instruction(inner) })
+		r.cond(okv && !skip, rule, kb, c.instrPos(inner), "t[clientID][topicID] = topicName on every path", "Add does not assign t[clientID][topicID] = topicName on every path: a later option (or the options over the file) does not override the earlier entry")
+	}
+	// (c) two fields => "*"
+	star := false
+	for _, f := range append(closuresIn(parse), parse) {
+		allInstrs(f, func(i ssa.Instruction) {
+			for _, op := range i.Operands(nil) {
+				if op != nil && *op != nil {
+					if s, ok := constString(*op); ok && s == "*" {
+						star = true
+					}
+				}
+			}
+		})
+	}
+	r.cond(star, rule, "ParsePredefinedTopicOptions:no-client-id-means-all", c.pos(parse.Pos()), "an option without a client ID is filed under \"*\"", "an option without a client ID is not filed under \"*\"")
 }
